@@ -116,8 +116,8 @@ def run(ctx):
                      workers=10 if thorough else 6, timeout=3000, coverage=thorough)
     ctx.design_check("DirectoryRace", "MCDirectoryRace.cfg", workers=4, timeout=600)
     r = ctx.tlc("DirectoryRace", "MCDirectoryRace_nolock.cfg", workers=4, timeout=600, expect_ok=False, count=False)
-    if "NameHeldByAtMostOne" not in r.violated and "IdsUnique" not in r.violated:
-        raise Infra("DirectoryRace without the lock should violate NameHeldByAtMostOne/IdsUnique, got %s" % r.violated)
+    if not set(r.violated) & {"NameHeldByAtMostOne", "IdsUnique", "EventsInOrder"}:
+        raise Infra("DirectoryRace without the lock should violate NameHeldByAtMostOne/IdsUnique/EventsInOrder, got %s" % r.violated)
     ctx.extra["race_model"] = ("DirectoryRace.tla: with Locked=TRUE every interleaving of two callers keeps the invariants; "
                                "with Locked=FALSE TLC finds %s (what the code did before the mutex; c15excl forces that "
                                "schedule on the code and requires the second caller to be kept out)" % r.violated)
